@@ -30,20 +30,80 @@ const MISSING_FILE: &str = "zz.oal";
 const ROOT: &str = "file:///";
 const SITE: &str = "oal-compiler/src/module.rs load";
 
+thread_local! {
+    /// Directory layout of the modules (set per phase / replay): see `LAYOUTS`.
+    static LAYOUT: std::cell::Cell<usize> = const { std::cell::Cell::new(0) };
+}
+
+/// File of node k (k >= 1; node 0 is always `main.oal`) in every layout. Layout 0 is the
+/// flat directory; 1 puts the imported modules side by side in a sub-directory; 2 and 3
+/// give the same file name to modules of different directories, so that the same relative
+/// spelling denotes different files depending on the importing module.
+const LAYOUTS: [[&str; 4]; 4] = [
+    ["m1.oal", "m2.oal", "m3.oal", "m4.oal"],
+    ["a/m1.oal", "a/m2.oal", "a/m3.oal", "a/m4.oal"],
+    ["a/m.oal", "m.oal", "a/b/m.oal", "b/m.oal"],
+    ["a/m1.oal", "m2.oal", "a/m2.oal", "m1.oal"],
+];
+const LAYOUT_NAMES: [&str; 4] = [
+    "one directory",
+    "imported modules in a sub-directory",
+    "the same file name in several directories",
+    "two pairs of equally named files in two directories",
+];
+
+fn set_layout(l: usize) {
+    LAYOUT.with(|c| c.set(l.min(LAYOUTS.len() - 1)));
+}
+
+fn layout() -> usize {
+    LAYOUT.with(|c| c.get())
+}
+
 fn file_of(k: usize) -> String {
     if k == 0 {
         "main.oal".to_owned()
     } else {
-        format!("m{k}.oal")
+        LAYOUTS[layout()][k - 1].to_owned()
     }
+}
+
+fn dir_of(k: usize) -> Vec<String> {
+    let f = file_of(k);
+    let mut segs: Vec<String> = f.split('/').map(|s| s.to_owned()).collect();
+    segs.pop();
+    segs
+}
+
+/// The path of `target` as written in a `use` of module `from`: relative to the directory
+/// of `from`.
+fn rel_path(from: usize, target: usize) -> String {
+    let fd = dir_of(from);
+    let tf = file_of(target);
+    let ts: Vec<&str> = tf.split('/').collect();
+    let mut common = 0;
+    while common < fd.len() && common + 1 < ts.len() && fd[common] == ts[common] {
+        common += 1;
+    }
+    let mut out = String::new();
+    for _ in common..fd.len() {
+        out.push_str("../");
+    }
+    out.push_str(&ts[common..].join("/"));
+    out
 }
 
 fn url_of(k: usize) -> String {
     format!("{ROOT}{}", file_of(k))
 }
 
-fn missing_url() -> String {
-    format!("{ROOT}{MISSING_FILE}")
+/// Locator of the file that does not exist, imported by module `k` as `zz.oal`.
+fn missing_url(k: usize) -> String {
+    let mut d = dir_of(k).join("/");
+    if !d.is_empty() {
+        d.push('/');
+    }
+    format!("{ROOT}{d}{MISSING_FILE}")
 }
 
 // ---------------------------------------------------------------------------
@@ -391,7 +451,7 @@ fn texts(g: &Graph, stmts: &[Vec<Stmt>]) -> BTreeMap<String, String> {
         for st in &stmts[k] {
             match st {
                 Stmt::Use { target, spell } => {
-                    let _ = writeln!(s, "use \"{}{}\" as m{target};", SPELL[*spell], file_of(*target));
+                    let _ = writeln!(s, "use \"{}{}\" as m{target};", SPELL[*spell], rel_path(k, *target));
                 }
                 Stmt::Missing => {
                     let _ = writeln!(s, "use \"{MISSING_FILE}\" as zz;");
@@ -425,6 +485,8 @@ impl Case {
     fn to_json(&self, variant: Value) -> Value {
         json!({
             "n": self.g.n,
+            "layout": layout(),
+            "layout_name": LAYOUT_NAMES[layout()],
             "edges": self.g.edges().iter().map(|(a, b)| json!([a, b])).collect::<Vec<_>>(),
             "imports": self.g.adj.iter().enumerate().map(|(a, l)| (file_of(a), json!(l.iter().map(|b| file_of(*b)).collect::<Vec<_>>()))).collect::<serde_json::Map<_, _>>(),
             "missing_in": self.missing,
@@ -804,7 +866,7 @@ fn judge(case: &Case, obs: &Obs, base: &Baseline) -> Result<&'static str, Failur
         ));
     }
     if let Res::Invalid(t) = &obs.res {
-        if *t != missing_url() {
+        if Some(t.as_str()) != case.missing.map(missing_url).as_deref() {
             return Err(fail(
                 "wrong-result",
                 "wrong result",
@@ -993,6 +1055,12 @@ impl Engine for C10 {
                 json!({"n": n, "perm_max": 3, "rotations": true, "cross": "full"}),
             )
         };
+        let laid = |n: usize, layout: usize, cross: &str, perm_max: usize| {
+            Phase::new(
+                &format!("import graphs on {n} modules, layout `{}`, {cross} product", LAYOUT_NAMES[layout]),
+                json!({"n": n, "perm_max": perm_max, "rotations": perm_max == 3, "cross": cross, "layout": layout}),
+            )
+        };
         match tier {
             Tier::Quick => vec![
                 full(1),
@@ -1001,6 +1069,10 @@ impl Engine for C10 {
                     "import graphs on 3 modules, every use order, reduced product",
                     json!({"n": 3, "perm_max": 3, "rotations": true, "cross": "reduced"}),
                 ),
+                laid(2, 1, "full", 3),
+                laid(2, 2, "full", 3),
+                laid(3, 1, "reduced", 3),
+                laid(3, 2, "reduced", 3),
             ],
             Tier::Thorough => vec![
                 full(1),
@@ -1010,11 +1082,18 @@ impl Engine for C10 {
                     "import graphs on 4 modules, every use order for <= 2 statements, separate axes",
                     json!({"n": 4, "perm_max": 2, "rotations": false, "cross": "separate"}),
                 ),
+                laid(2, 1, "full", 3),
+                laid(2, 2, "full", 3),
+                laid(3, 1, "full", 3),
+                laid(3, 2, "full", 3),
+                laid(4, 2, "separate", 2),
+                laid(4, 3, "separate", 2),
             ],
         }
     }
     fn run_phase(&self, phase: &Phase, sink: &mut Sink) {
         let n = phase.param["n"].as_u64().unwrap() as usize;
+        set_layout(phase.param["layout"].as_u64().unwrap_or(0) as usize);
         let ot = OrderTable::new(
             phase.param["perm_max"].as_u64().unwrap() as usize,
             phase.param["rotations"].as_bool().unwrap(),
@@ -1111,6 +1190,7 @@ impl Engine for C10 {
                 case.clone(),
             );
         };
+        set_layout(case["layout"].as_u64().unwrap_or(0) as usize);
         let (verdict, _, _) = run_case(&c, &mut None, &mut BTreeMap::new());
         match verdict {
             Ok(tag) => Outcome::ok(tag, None),
@@ -1118,13 +1198,13 @@ impl Engine for C10 {
         }
     }
     fn rule(&self) -> String {
-        "every directed graph on N nodes (2^(N*N) adjacency matrices, self loops included, fewest edges first) read as the import relation of main.oal, m1.oal, ...; module k is `use \"mj.oal\" as mj;` for each import, `let vk = { 'pk str, 'mj mj.vj ... };`, and main adds `res / on get -> <v0>;`, so the document depends on every reachable module. Per graph the product of: (a) optional `use \"zz.oal\"` (no such file) appended to one module (N+1 choices, unreachable modules included); (b) optional duplicate of one `use` (each edge leaving a reachable module; copy with the same or with the next spelling); (c) spelling of the paths over {m.oal, ./m.oal, d/../m.oal}: all plain, each single reachable edge with each alternative, all edges with each alternative (3+2E choices, not the 3^E product); (d) order of the `use` statements of every reachable module: for N<=3 every permutation of lists of <= 3 statements (so every order of every out-degree) and, for the lists of 4 or 5 statements that arise when a 3-import module also gets the duplicate and/or the missing import, the 2L rotations of the sorted list and of its reverse; for N=4 every permutation of lists of <= 2 statements, longer lists sorted and reversed. Statements of modules unreachable from main are not varied (a correct loader never reads them; reading them is caught in every configuration). Bounds named `full product` cross (a) x (b) x (c) x (d); the bound named `reduced product` (N=3 in the quick tier) takes (c) x (d) without duplicate and missing import, plus (a) x (b) x (d) with plain spelling (the copy of a duplicated use still takes the same or the next spelling); the bound named `separate axes` (N=4) takes (c) x (d), (a) x (d) and (b) x (d). Each configuration runs the real module::load with a recording in-memory Loader (real parse, real compile), then eval + OpenAPI builder + YAML. Oracle: DFS reachability and three-colour cycle detection; result class; load/parse/compile exactly once for exactly the reachable modules; compile(b) before compile(a) for every import a->b; response schema equal to the tree unfolding of the graph; result class and YAML text equal to those of the canonical configuration (sorted order, plain spelling, no duplicate) of the same graph. A configuration is trivial when main imports nothing and nothing is missing; distinct = distinct (result, call trace, document) triples".into()
+        "every directed graph on N nodes (2^(N*N) adjacency matrices, self loops included, fewest edges first) read as the import relation of main.oal, m1.oal, ... laid out in one directory and, in the bounds that name a layout, (1) with the imported modules side by side in a sub-directory (a/m1.oal, a/m2.oal, ...), (2) with the same file name in several directories (a/m.oal, m.oal, a/b/m.oal, b/m.oal) and (3) with two pairs of equally named files (a/m1.oal, m2.oal, a/m2.oal, m1.oal), every `use` spelling the target relative to the importing file (so the same spelling denotes different files from different modules, and `..` segments occur); module k is `use \"mj.oal\" as mj;` for each import, `let vk = { 'pk str, 'mj mj.vj ... };`, and main adds `res / on get -> <v0>;`, so the document depends on every reachable module. Per graph the product of: (a) optional `use \"zz.oal\"` (no such file) appended to one module (N+1 choices, unreachable modules included); (b) optional duplicate of one `use` (each edge leaving a reachable module; copy with the same or with the next spelling); (c) spelling of the paths over {m.oal, ./m.oal, d/../m.oal}: all plain, each single reachable edge with each alternative, all edges with each alternative (3+2E choices, not the 3^E product); (d) order of the `use` statements of every reachable module: for N<=3 every permutation of lists of <= 3 statements (so every order of every out-degree) and, for the lists of 4 or 5 statements that arise when a 3-import module also gets the duplicate and/or the missing import, the 2L rotations of the sorted list and of its reverse; for N=4 every permutation of lists of <= 2 statements, longer lists sorted and reversed. Statements of modules unreachable from main are not varied (a correct loader never reads them; reading them is caught in every configuration). Bounds named `full product` cross (a) x (b) x (c) x (d); the bound named `reduced product` (N=3 in the quick tier) takes (c) x (d) without duplicate and missing import, plus (a) x (b) x (d) with plain spelling (the copy of a duplicated use still takes the same or the next spelling); the bound named `separate axes` (N=4) takes (c) x (d), (a) x (d) and (b) x (d). Each configuration runs the real module::load with a recording in-memory Loader (real parse, real compile), then eval + OpenAPI builder + YAML. Oracle: DFS reachability and three-colour cycle detection; result class; load/parse/compile exactly once for exactly the reachable modules; compile(b) before compile(a) for every import a->b; response schema equal to the tree unfolding of the graph; result class and YAML text equal to those of the canonical configuration (sorted order, plain spelling, no duplicate) of the same graph. A configuration is trivial when main imports nothing and nothing is missing; distinct = distinct (result, call trace, document) triples".into()
     }
     fn assumptions(&self) -> Vec<String> {
         vec![
             "when a missing import and an import cycle are both reachable the statement asks for both reports and load returns one error: either class is accepted, but it must be the same class for every use order and spelling of that graph".into(),
             "is_valid calls are recorded and counted as transitions but their number is not judged (the statement speaks of load, parse and compile only)".into(),
-            "all modules live in one directory; alternative spellings are ./m.oal and d/../m.oal (no symbolic links, no case folding, no percent-encoding)".into(),
+            "four directory layouts of at most depth 2; alternative spellings prefix the relative path with ./ or d/../ (no symbolic links, no case folding, no percent-encoding, no absolute paths or URLs)".into(),
             "at most one duplicate use and one missing import per configuration; spellings are varied one edge at a time or all together".into(),
         ]
     }
